@@ -162,7 +162,7 @@ def inBodyStart (c : Cfg) (s : State) (n0 : Name) (a : Attrs) (selfClosing : Boo
   else if n == .a then
     let s :=
       match findAfeA s.afe with
-      | some e => ((s.adoptionAgency c .a).removeFromAfe e.id).removeFromStack e.id
+      | some e => ((s.adoptionAgency c .a).removeFromAfe e).removeFromStack e
       | none => s
     .ok ((s.reconstructAfe).insertFormatting n a)
   else if n.isIn [.b, .big, .code, .em, .font, .i, .s, .small, .strike, .strong, .tt, .u] then
@@ -254,8 +254,8 @@ def inBodyEnd (c : Cfg) (s : State) (n : Name) : Res :=
       | none => .ignore s
       | some node =>
         let s := { s with formPtr := none }
-        if !s.inScopeId c node.id then .ignore s
-        else .ok ((s.genImplied).removeFromStack node.id)
+        if !s.inScopeId c node then .ignore s
+        else .ok ((s.genImplied).removeFromStack node)
     else
       if !s.inScope c .form then .ignore s
       else .ok ((s.genImplied).popUntilNamed .form)
@@ -683,7 +683,7 @@ def afterHead (c : Cfg) (s : State) (t : Token) : Res :=
     else if n.isIn headStartNames then
       -- push the node pointed to by the head element pointer, process using "in head", remove it
       match s.headPtr with
-      | some h => (inHead c (s.onTree (·.pushEl h)) t).mapState (·.removeFromStack h.id)
+      | some h => (inHead c (s.onTree (·.pushEl h)) t).mapState (·.removeFromStack h)
       | none => inHead c s t     -- not reachable: the pointer is set before this mode is entered
     else if n == .head then .ignore s
     else anythingElse
